@@ -32,6 +32,9 @@ func (hh *vmHH) create(k int, size uint64) *vmHandle {
 	f, err := hh.s.Create(vmKeys[k], size)
 	want := hh.m.create(k, size)
 	verif.Assert("create-result", vmClass(err) == want)
+	if want == vrNoSpace {
+		hh.adoptFailedCreateEvictions()
+	}
 	if want != vrOK || err != nil {
 		return nil
 	}
